@@ -51,6 +51,8 @@ def unroll_literal_loops(tree):
 
         def visit_Name(self, n):
             if n.id == self.name and isinstance(n.ctx, ast.Load):
+                if isinstance(self.const, tuple) and self.const[0] == 'name':
+                    return ast.copy_location(ast.Name(id=self.const[1], ctx=ast.Load()), n)
                 return ast.copy_location(ast.Constant(value=self.const), n)
             return n
 
@@ -58,6 +60,8 @@ def unroll_literal_loops(tree):
         if isinstance(it, (ast.Tuple, ast.List)) and it.elts and len(it.elts) <= 8 and all(
                 isinstance(e, ast.Constant) and isinstance(e.value, (str, int)) for e in it.elts):
             return [e.value for e in it.elts]
+        if isinstance(it, (ast.Tuple, ast.List)) and it.elts and len(it.elts) <= 4 and all(isinstance(e, ast.Name) for e in it.elts):
+            return [('name', e.id) for e in it.elts]
         if isinstance(it, ast.Name) and fnnode is not None:
             defs = [n for n in ast.walk(fnnode) if isinstance(n, ast.Assign) and any(isinstance(t, ast.Name) and t.id == it.id for t in n.targets)]
             others = [n for n in ast.walk(fnnode) if isinstance(n, (ast.AugAssign, ast.For)) and isinstance(getattr(n, 'target', None), ast.Name)
@@ -90,6 +94,9 @@ def unroll_literal_loops(tree):
                 return node
             vals = literal_of(self.fn, node.iter)
             if vals is None:
+                return node
+            names = {v[1] for v in vals if isinstance(v, tuple)}
+            if names and any(isinstance(x, ast.Name) and x.id in names and isinstance(x.ctx, ast.Store) for b in node.body for x in ast.walk(b)):
                 return node
             out = []
             for v in vals:
